@@ -350,6 +350,13 @@ class Abs(Operator):
 
     def __init__(self, a):
         """Initialise."""
+        # NB! When __new__ returns an existing Abs (the simplifications
+        # of abs(abs(f)) and abs(conj(f))), python calls __init__ on
+        # that object once more with the original argument
+        if a is self:
+            return
+        if isinstance(a, Conj):
+            a = a.ufl_operands[0]
         Operator.__init__(self, (a,))
 
     def evaluate(self, x, mapping, component, index_values):
